@@ -60,6 +60,12 @@ fn main() {
             checks::c02::debug(&args);
             std::process::exit(0);
         }
+        ("C08", None) => checks::c08::run(&ctx),
+        ("C08", Some(r)) => checks::c08::replay(&ctx, &r["case"]),
+        ("C08DBG", _) => {
+            checks::c08::debug(&args);
+            std::process::exit(0);
+        }
         ("C05", None) => checks::cfgstate::run_c05(&ctx),
         ("C06", None) => checks::cfgstate::run_c06(&ctx),
         ("C07", None) => checks::cfgstate::run_c07a(&ctx),
